@@ -40,8 +40,17 @@ Definition in_class_i (c : icase) : bool :=
   forallb (fun d => simple_subject (d_cat d)) (i_ds c) &&
   forallb (fun kv => simple_subject (fst kv)) (i_allowed c).
 
+(* input diagnostics are compared on every field; the extra diagnostics created by the code under test (categories
+   compile / staticcheck) are compared without their message text, which the property does not talk about *)
+Definition is_extra_cat (d : diag) : bool := String.eqb (d_cat d) "compile" || String.eqb (d_cat d) "staticcheck".
+Definition diag_eqb_x (a b : diag) : bool :=
+  if is_extra_cat a then
+    pos_eqb (d_pos a) (d_pos b) && String.eqb (d_cat a) (d_cat b) && sev_eqb (d_sev a) (d_sev b) && Z.eqb (d_rest a) (d_rest b)
+  else diag_eqb a b.
 Definition i_mismatch (c : icase) : bool :=
-  negb (list_eqb diag_eqb (filter_ignored (i_ds c) (i_dirs c) (i_allowed c)) (i_out c)).
+  let n := List.length (i_ds c) in
+  let m := filter_ignored (i_ds c) (i_dirs c) (i_allowed c) in
+  negb (list_eqb diag_eqb (firstn n m) (firstn n (i_out c)) && list_eqb diag_eqb_x (skipn n m) (skipn n (i_out c))).
 
 (* extras are compared by position and category (and severity for compile errors); messages are not part of the property *)
 Definition extra_eqb (a b : diag) : bool :=
@@ -120,7 +129,7 @@ Definition in_class_c (c : ccase) : bool :=
 
 Definition c_mismatch (c : ccase) : bool :=
   let m := cli_model c in
-  negb (Nat.eqb (List.length m) (List.length (c_out c)) && match msub diag_eqb m (c_out c) with [] => true | _ => false end).
+  negb (Nat.eqb (List.length m) (List.length (c_out c)) && match msub diag_eqb_x m (c_out c) with [] => true | _ => false end).
 Definition cli_eqb (a b : diag) : bool :=
   pos_eqb (d_pos a) (d_pos b) && String.eqb (d_cat a) (d_cat b) && sev_eqb (d_sev a) (d_sev b).
 Definition c_violation (c : ccase) : list vio :=
